@@ -720,10 +720,10 @@ func (x *Exec) feasible(st *State) bool {
 // invokeConcrete calls method cc.Method on the concrete dynamic type with the given (literal) tag.
 func (x *Exec) invokeConcrete(fr *Frame, st *State, cc *ssa.CallCommon, recv IfaceV, args []Value, site ssa.Instruction, k cont) bool {
 	id := int(recv.Tag.Int.Int64())
-	if id < 1 || id > len(tags.types) {
+	t := tags.typeOf(id)
+	if t == nil {
 		return false
 	}
-	t := tags.types[id-1]
 	if _, isPseudo := t.(*pseudoType); isPseudo {
 		return false
 	}
